@@ -114,6 +114,34 @@ def check(run, driver):
                                 vz = f(X, Y, Z[:, list(cp)])
                                 if not rel_close(v, vz):
                                     run.prop_fail("estimate depends on the order of the conditioning columns", case, sig("z_col_perm"), {"base": v, "reordered": vz, "column_order": cp}); break
+    # ---- unconditional Poisson path vs the Lean model (CEModel/PoissonMI.lean): the estimator as a function of the correlation matrix
+    from common import mat, unval, vec
+    E = importlib.import_module("causationentropy.core.information.entropy")
+    reqs, meta = [], []
+    for it in range(60 if thorough else 20):
+        N = int(rng.integers(15, 60)); kx, ky = int(rng.integers(1, 4)), int(rng.integers(1, 4))
+        W = rng.poisson(3.0, size=(N, kx + ky)).astype(float)
+        W[:, kx] += W[:, 0]
+        X, Y = W[:, :kx], W[:, kx:]
+        val = float(C.poisson_conditional_mutual_information(X, Y, None))
+        Cm = np.corrcoef(X.T, Y.T)
+        s_ = (Cm - np.diag(np.diag(Cm))).sum(axis=0)
+        newdiag = np.diag(Cm) - s_
+        dcov = newdiag + s_
+        H1 = np.atleast_1d(np.asarray(E.poisson_entropy(np.matrix(newdiag)), dtype=float)).reshape(-1)
+        H2 = np.atleast_1d(np.asarray(E.poisson_entropy(dcov), dtype=float)).reshape(-1)
+        if H1.size != kx + ky or H2.size != kx + ky:
+            continue
+        run.case("poisson-unconditional-model", [N, kx, ky, float(W[0, 0])], True, sample={"N": N, "kx": kx, "ky": ky, "impl": val})
+        meta.append(({"N": N, "kx": kx, "ky": ky, "X": X, "Y": Y}, val))
+        reqs.append({"op": "poisson_mi", "C": mat(Cm), "H": vec(list(H1) + list(H2))})
+    for (case, val), r in zip(meta, driver.run(reqs)):
+        if "ok" not in r:
+            run.corr_fail("poisson-unconditional-model", case, r, val, "driver error"); continue
+        run.traces += 1
+        m = float(unval(r["ok"]))
+        if abs(m - val) > 1e-9 * max(1.0, abs(val)):
+            run.corr_fail("poisson-unconditional-model", case, m, val, "model of the Z=None Poisson branch (function of corrcoef) differs from the implementation")
     # the Poisson conditional path with k_x != k_y (part of the known finding)
     N = 20
     Xc = rng.poisson(3.0, size=(N, 2)).astype(float); Yc = rng.poisson(3.0, size=(N, 1)).astype(float); Zc = rng.poisson(3.0, size=(N, 2)).astype(float)
